@@ -221,6 +221,29 @@ def split_path(acc):
   return out
 
 
+def expected_lines(b):
+  """Lines as_str_flattened owes a Buildable: one per non-variadic parameter
+  that is unset or holds a leaf, plus leaf *args elements and leaf **kwargs."""
+  from fsim.stubs import SigView
+  sv = SigView(b.__fn_or_cls__)
+  args = b.__arguments__
+  n = 0
+  names = set()
+  for i, p in enumerate(sv.prefix):
+    key = i if p.name in sv.po else p.name
+    names.add(key)
+    if key not in args or not has_buildable(args[key]):
+      n += 1
+  for name in sv.ko:
+    names.add(name)
+    if name not in args or not has_buildable(args[name]):
+      n += 1
+  for k, v in args.items():
+    if k not in names and not has_buildable(v):
+      n += 1
+  return n
+
+
 def under_tuple(cfg, path):
   """True if evaluating the path passes through a tuple (plain Python)."""
   toks = split_path(accessor(path))
@@ -288,6 +311,27 @@ def check_printers(cfg, probes):
   if n_set != n_leaves:
     return V('printed-leaves-count',
              f'as_str_flattened lists {n_set} set leaves, configuration has {n_leaves}')
+  # one line per parameter of every printed Buildable: set, or marked unset
+  by_parent = {}
+  for line in text.split('\n') if text else []:
+    path = line.split(' = ', 1)[0]
+    toks = split_path(accessor(path))
+    if not toks:
+      continue
+    by_parent.setdefault(''.join(toks[:-1]), []).append(toks[-1])
+  for pacc, lasts in by_parent.items():
+    try:
+      parent = eval('cfg' + pacc, {'cfg': cfg})  # pylint: disable=eval-used
+    except Exception:  # pylint: disable=broad-except
+      continue
+    if not isinstance(parent, fdl.Buildable):
+      continue
+    want = expected_lines(parent)
+    if len(lasts) != want:
+      return V('printed-lines-per-buildable',
+               f'as_str_flattened prints {len(lasts)} lines directly under '
+               f'cfg{pacc} ({sorted(lasts)}), but that Buildable has {want} '
+               'parameters / arguments that are leaves or unset')
   probes['str_paths_checked'] = probes.get('str_paths_checked', 0) + n_set
   return None
 
